@@ -215,3 +215,57 @@ def index_sites(F):
                       "unguarded %s in `%s`: panics when the metadata is empty or the cursor is past the end (empty module / all functions skipped)" % (k, snip))
     r.count("index_sites", n)
     return r
+
+
+def config_immutable(F):
+    """R-ITER-CONFIG: the skip lists and the (function, instruction count) metadata are the iterator's configuration: they
+    are fixed at construction and must survive reset() and repeated traversals.  No method other than the constructor may
+    assign them or call a consuming/mutating method on them (remove, take, drain, clear, pop, insert, push, retain, swap...)."""
+    r = RuleResult("R-ITER-CONFIG",
+                   "ModuleSubIterator/ComponentSubIterator/FuncSubIterator configuration (skip_funcs, metadata, num_mods, num_instrs bound source) is written only by the constructors: traversal and reset never consume or edit it")
+    CFG = ("skip_funcs", "metadata")
+    MUT = ("remove", "take", "drain", "clear", "pop", "insert", "push", "retain", "swap_remove", "truncate", "extend", "append", "sort", "dedup", "get_mut", "iter_mut", "values_mut", "entry", "remove_entry", "split_off")
+    n = 0
+    for adt in ("ModuleSubIterator", "ComponentSubIterator"):
+        for fn in F.find_fns(self_adt=adt):
+            if fn.get("body") is None:
+                continue
+            r.analysed.append(fn["path"])
+            for x in walk(fn["body"]):
+                hit = None
+                if x.get("k") == "MethodCall" and x["method"] in MUT:
+                    pp = place_path(x["recv"]) or ""
+                    if pp.startswith("self.") and pp.split(".")[1] in CFG:
+                        hit = "%s.%s()" % (pp, x["method"])
+                if x.get("k") in ("Assign", "AssignOp"):
+                    pp = place_path(x["lhs"]) or ""
+                    if pp.startswith("self.") and pp.split(".")[1].split("[")[0] in CFG:
+                        hit = "%s = .." % pp
+                        rhs = peel(x.get("rhs") or {})
+                        phids = {pm["pat"].get("hid") for pm in fn.get("params", [])}
+                        if x.get("k") == "Assign" and pp.count(".") == 1 and rhs.get("k") == "Path" and rhs.get("res", {}).get("hid") in phids:
+                            hit = None  # wholesale re-configuration by the owner (reset_from_comp_iterator(metadata, skip_funcs))
+                if x.get("k") == "Call" and (x.get("callee") or "").endswith("mem::take") and x["args"]:
+                    pp = place_path(x["args"][0]) or ""
+                    if pp.startswith("self.") and pp.split(".")[1] in CFG:
+                        hit = "mem::take(%s)" % pp
+                if hit:
+                    n += 1
+                    ok = fn["name"] == "new"
+                    r.ob(ok, {"fn": fn["path"], "writes": hit})
+                    if not ok:
+                        r.violate("%s | %s" % (fn["path"], hit), F.loc(fn, x),
+                                  "%s::%s edits/consumes the iterator's configuration (`%s`): after it ran, reset() or a second traversal no longer skips/visits what the caller configured" % (adt, fn["name"], hit))
+    reads = 0
+    for adt in ("ModuleSubIterator", "ComponentSubIterator"):
+        for fn in F.find_fns(self_adt=adt):
+            if fn.get("body") is None:
+                continue
+            for x in walk(fn["body"]):
+                if x.get("k") == "Field" and x["name"] in CFG and peel(x["base"]).get("res", {}).get("name") == "self":
+                    reads += 1
+    r.ob(True, {"configuration_reads": reads, "mutations_outside_new": n})
+    r.count("config_reads", reads)
+    if reads < 6:
+        raise CheckError("iterator configuration fields not found (anchor moved?): %d reads" % reads)
+    return r
